@@ -23,6 +23,7 @@ type runCfg struct {
 	workers  int
 	timeoutS int
 	all      bool
+	out      string
 }
 
 func hasProp(ps []string, p string) bool {
@@ -69,6 +70,7 @@ func main() {
 	flag.StringVar(&cfg.tier, "tier", "quick", "quick|thorough")
 	flag.StringVar(&cfg.repo, "repo", "/repo", "repository")
 	flag.StringVar(&cfg.verif, "verif", "/verif", "verif dir")
+	flag.StringVar(&cfg.out, "out", "", "directory for evidence/ and replays/ (default: the verif dir)")
 	flag.StringVar(&cfg.fnRe, "fn", "", "only functions matching regexp (debug)")
 	flag.StringVar(&cfg.dump, "dump", "", "keep SMT files in this directory")
 	flag.BoolVar(&cfg.verbose, "v", false, "verbose")
@@ -77,6 +79,9 @@ func main() {
 	flag.IntVar(&cfg.timeoutS, "timeout", 0, "per-query timeout seconds")
 	mode := flag.String("mode", "check", "check|list|baseline")
 	flag.Parse()
+	if cfg.out == "" {
+		cfg.out = cfg.verif
+	}
 	if cfg.timeoutS == 0 {
 		cfg.timeoutS = 10
 		if cfg.tier == "thorough" {
@@ -180,6 +185,10 @@ func run(cfg *runCfg, mode string) int {
 			fmt.Fprintf(os.Stderr, "ENGINE-ERROR: %v\n", err)
 			engineErrors++
 			continue
+		}
+		for _, w := range fx.warnings {
+			fmt.Fprintf(os.Stderr, "ENGINE-ERROR: %s\n", w)
+			engineErrors++
 		}
 		for _, o := range fx.obls {
 			if cfg.prop == "" || hasProp(o.Props, cfg.prop) {
